@@ -1,4 +1,194 @@
+(* C13/Properties.v — the property theorems only.  Each is closed by [exact] of a lemma from
+   Proofs.v (or by computation for witnesses) and followed by Print Assumptions.
+
+   [Repaired] is the behaviour after fixes/C13_persist_before_swap.patch plus an atomic Set;
+   [Defective] is pkg/configmgr as it is today.  The full theorems are about [Repaired]; the
+   [_refuted] theorems exhibit histories on which [Defective] violates them. *)
 From OV Require Import Common.Base C13.Model C13.Proofs.
-Theorem C13_tick_running : forall st d, running (do_tick st d) = running st.
-Proof. exact tick_running. Qed.
-Print Assumptions C13_tick_running.
+
+(* reachable states of the repaired manager, from any initial running configuration, under any
+   registry, any pre-commit guard and any history (incl. every fault plan) satisfy the invariant *)
+Theorem C13_reachable_invariant :
+  forall reg g r ops, Inv (run Repaired reg g (init_state r) ops).
+Proof. intros. apply inv_run, inv_init. Qed.
+Print Assumptions C13_reachable_invariant.
+
+(* ATOMIC.  Whatever the state (reachable or not), whatever fails — session lookup, dependency
+   resolution, pre-commit validation, the k-th handler, routing-daemon test or reload, the startup
+   file write — a Commit that does not return ok leaves running, startup, the startup file, the
+   version files and the version list exactly as they were; the only state change is idle expiry and
+   the refreshed activity stamp of the session; and the Rollback calls are exactly the successful
+   Apply calls in reverse order. *)
+Theorem C13_atomic :
+  forall reg g st id f st' r evs,
+  do_commit Repaired reg g st id f = (st', r, evs) -> r <> ROk ->
+  st' = touch_state (expire st) id /\ persisted st' = persisted st /\
+  rolled evs = rev (applied_ok evs).
+Proof. exact atomic. Qed.
+Print Assumptions C13_atomic.
+
+(* FRAME.  In every reachable state a successful Commit publishes the session's candidate to
+   running, startup and the startup file, and the new running configuration differs from the
+   previous one only at leaves whose path was set in this session and at containers that are
+   prefixes of such paths; nothing is rolled back. *)
+Theorem C13_frame :
+  forall reg g r ops id f st' evs,
+  let st := run Repaired reg g (init_state r) ops in
+  do_commit Repaired reg g st id f = (st', ROk, evs) ->
+  exists s, find_session (sessions (expire st)) id = Some s /\ s_changes s <> [] /\
+    running st' = s_cand s /\ startup st' = s_cand s /\ sfile st' = Some (s_cand s) /\
+    (forall p, ~ In p (map c_path (s_changes s)) -> get_leaf (running st') p = get_leaf (running st) p) /\
+    (forall c, has_cont (running st) c = true -> has_cont (running st') c = true) /\
+    (forall c, has_cont (running st') c = true -> has_cont (running st) c = true \/
+               exists p, In p (map c_path (s_changes s)) /\ is_prefix c p) /\
+    rolled evs = [].
+Proof. intros reg g r ops id f st' evs st H. eapply frame; eauto. apply inv_run, inv_init. Qed.
+Print Assumptions C13_frame.
+
+(* ISOLATION.  In every reachable state the only operation that changes running, startup, the
+   startup file, the version files or the version list is a Commit that returns ok: candidate edits
+   (Set), Create, Close, Delete, Rollback-to-version, the passing of time and failed commits do not. *)
+Theorem C13_isolation :
+  forall reg g r ops o st' res evs,
+  let st := run Repaired reg g (init_state r) ops in
+  step Repaired reg g st o = (st', res, evs) ->
+  persisted st' <> persisted st -> exists id f, o = OCommit id f /\ res = ROk.
+Proof. intros reg g r ops o st' res evs st H. eapply isolation; eauto. apply inv_run, inv_init. Qed.
+Print Assumptions C13_isolation.
+
+(* a Set in particular is invisible in running *)
+Theorem C13_set_invisible :
+  forall reg g r ops id p v vf st' res,
+  let st := run Repaired reg g (init_state r) ops in
+  do_set Repaired reg st id p v vf = (st', res) -> running st' = running st.
+Proof.
+  intros reg g r ops id p v vf st' res st H.
+  eapply inv_set in H; [apply H | apply inv_run, inv_init].
+Qed.
+Print Assumptions C13_set_invisible.
+
+(* SINGLE LOCK.  In every reachable state there is at most one candidate session, it is the lock
+   owner, and without a session the lock is free. *)
+Theorem C13_single_lock :
+  forall reg g r ops,
+  let st := run Repaired reg g (init_state r) ops in
+  (forall s1 s2, In s1 (sessions st) -> In s2 (sessions st) -> s1 = s2) /\
+  (forall s, In s (sessions st) -> lock st = Some (s_id s)) /\
+  (sessions st = [] -> lock st = None).
+Proof. intros. apply single_lock, inv_run, inv_init. Qed.
+Print Assumptions C13_single_lock.
+
+(* Create is refused exactly while the lock is held (after idle expiry) and a granted session starts
+   as a copy of running with no changes *)
+Theorem C13_create_refused :
+  forall st o, lock (expire st) = Some o -> do_create st = (expire st, RLocked).
+Proof. exact create_refused. Qed.
+Print Assumptions C13_create_refused.
+Theorem C13_create_granted :
+  forall st st' id, do_create st = (st', RId id) ->
+  lock (expire st) = None /\ lock st' = Some id /\ id = (next_id st + 1)%N /\
+  exists s, In s (sessions st') /\ s_id s = id /\ s_cand s = running st /\ s_changes s = [].
+Proof. exact create_granted. Qed.
+Print Assumptions C13_create_granted.
+
+(* ---------------------------------------------------------------- witnesses *)
+(* registry: 0 = a.<*>.m (int leaf under a map entry), 1 = b.e (bool leaf under a pointer, reload) *)
+Definition ex_reg : registry :=
+  [ {| h_pat := [PLit 1; PWild; PLit 2]; h_kind := KInt; h_conts := [1; 2]%nat; h_deps := []; h_frr := false |};
+    {| h_pat := [PLit 5; PLit 6]; h_kind := KBool; h_conts := [1]%nat; h_deps := []; h_frr := true |} ]%N.
+Definition ex_p : path := [1; 3; 2]%N.          (* a.x.m *)
+Definition ex_q : path := [1; 4; 2]%N.          (* a.y.m *)
+Definition ex_b : path := [5; 6]%N.             (* b.e   *)
+Definition ex_ops : list op :=
+  [OCreate; OSet 1 ex_p (VInt 1500) false; OSet 1 ex_b (VBool true) false].
+Definition f_with (k : nat) (t r s v : bool) : faults :=
+  {| f_apply := k; f_test := t; f_reload := r; f_startup := s; f_version := v |}.
+
+(* non-vacuity of C13_atomic: every failure point is reachable and rolls back something *)
+Example C13_atomic_nonvacuous :
+  let st := run Repaired ex_reg None (init_state empty_store) ex_ops in
+  snd (fst (do_commit Repaired ex_reg None st 1 (f_with 2 false false false false))) = RApplyFail /\
+  snd (fst (do_commit Repaired ex_reg None st 1 (f_with 0 true false false false))) = RFrrTest /\
+  snd (fst (do_commit Repaired ex_reg None st 1 (f_with 0 false true false false))) = RFrrReload /\
+  snd (fst (do_commit Repaired ex_reg None st 1 (f_with 0 false false true false))) = RStartupSave /\
+  rolled (snd (do_commit Repaired ex_reg None st 1 (f_with 0 false false true false))) =
+    [(ex_b, VBool true); (ex_p, VInt 1500)] /\
+  snd (fst (do_commit Repaired ex_reg (Some ([1;3], ex_p, 1512%Z)) st 1 no_faults))%N = RPrecommit.
+Proof. vm_compute. repeat split. Qed.
+Print Assumptions C13_atomic_nonvacuous.
+
+(* non-vacuity of C13_frame / C13_isolation: a commit succeeds and changes running *)
+Example C13_frame_nonvacuous :
+  let st := run Repaired ex_reg None (init_state empty_store) ex_ops in
+  let '(st', r, evs) := do_commit Repaired ex_reg None st 1 (f_with 0 false false false true) in
+  r = ROk /\ get_leaf (running st') ex_p = Some (SInt 1500) /\ get_leaf (running st) ex_p = None /\
+  sessions st' = [] /\ lock st' = None /\ length (vmem st') = 1%nat /\ vfiles st' = [].
+Proof. vm_compute. repeat split. Qed.
+Print Assumptions C13_frame_nonvacuous.
+
+(* ---------------------------------------------------------------- what the code violates today *)
+(* startup-file write fails: Commit returns an error although running and startup were replaced,
+   and nothing is rolled back *)
+Theorem C13_atomic_refuted :
+  exists reg g ops id f st' r evs,
+  let st := run Defective reg g (init_state empty_store) ops in
+  do_commit Defective reg g st id f = (st', r, evs) /\ r <> ROk /\
+  running st' <> running st /\ startup st' <> startup st /\ rolled evs <> rev (applied_ok evs).
+Proof.
+  exists ex_reg, None, ex_ops, 1%N, (f_with 0 false false true false).
+  eexists; eexists; eexists. cbv zeta. split; [vm_compute; reflexivity|].
+  split; [discriminate|]. split; [|split].
+  - intros E. apply (f_equal (fun s => get_leaf s ex_p)) in E. vm_compute in E. discriminate.
+  - intros E. apply (f_equal (fun s => get_leaf s ex_p)) in E. vm_compute in E. discriminate.
+  - vm_compute. discriminate.
+Qed.
+Print Assumptions C13_atomic_refuted.
+
+(* version write fails: Commit returns an error after the commit has fully taken effect *)
+Theorem C13_atomic_version_refuted :
+  exists reg g ops id f st' r evs,
+  let st := run Defective reg g (init_state empty_store) ops in
+  do_commit Defective reg g st id f = (st', r, evs) /\ r = RVersionSave /\
+  running st' <> running st /\ sfile st' <> sfile st /\ sessions st' = [].
+Proof.
+  exists ex_reg, None, ex_ops, 1%N, (f_with 0 false false false true).
+  eexists; eexists; eexists. cbv zeta. split; [vm_compute; reflexivity|].
+  split; [reflexivity|]. split; [|split].
+  - intros E. apply (f_equal (fun s => get_leaf s ex_p)) in E. vm_compute in E. discriminate.
+  - vm_compute. discriminate.
+  - reflexivity.
+Qed.
+Print Assumptions C13_atomic_version_refuted.
+
+(* after that failed commit the session is still open and shares its configuration object with
+   running: a Set, which is not a commit, changes the running configuration *)
+Theorem C13_isolation_refuted :
+  exists reg g ops id p v st' res,
+  let st := run Defective reg g (init_state empty_store) ops in
+  do_set Defective reg st id p v false = (st', res) /\ res = ROk /\ running st' <> running st.
+Proof.
+  exists ex_reg, None, (ex_ops ++ [OCommit 1 (f_with 0 false false true false)]), 1%N, ex_p, (VInt 9000).
+  eexists; eexists. cbv zeta. split; [vm_compute; reflexivity|]. split; [reflexivity|].
+  intros E. apply (f_equal (fun s => get_leaf s ex_p)) in E. vm_compute in E. discriminate.
+Qed.
+Print Assumptions C13_isolation_refuted.
+
+(* a Set that fails in convertValue has already created containers; the next successful commit
+   publishes a container that is not a prefix of any path set in the session *)
+Theorem C13_frame_refuted :
+  exists reg g ops id f st' evs c,
+  let st := run Defective reg g (init_state empty_store) ops in
+  do_commit Defective reg g st id f = (st', ROk, evs) /\
+  has_cont (running st') c = true /\ has_cont (running st) c = false /\
+  forall s, find_session (sessions (expire st)) id = Some s ->
+  forall p, In p (map c_path (s_changes s)) -> ~ is_prefix c p.
+Proof.
+  exists ex_reg, None,
+    [OCreate; OSet 1 ex_q (VStr [97]%N) false; OSet 1 ex_p (VInt 1500) false], 1%N, no_faults.
+  eexists; eexists; exists [1; 4]%N. cbv zeta. split; [vm_compute; reflexivity|].
+  split; [reflexivity|]. split; [reflexivity|].
+  intros s Hs p Hp [n Hn]. vm_compute in Hs. inversion Hs; subst s; clear Hs.
+  simpl in Hp. destruct Hp as [Hp|[]]. subst p.
+  destruct n as [|[|[|[|n]]]]; vm_compute in Hn; discriminate.
+Qed.
+Print Assumptions C13_frame_refuted.
